@@ -159,6 +159,31 @@ let handle (w : string list) : string =
   | ["showreq"; req] ->
       let r = request_of req in
       Printf.sprintf "%s wf=%b" (String.concat " " (List.map tok_str (show_request r))) (SpecParse.wf_request r)
+  | ["seropen"; tag; priv; id; a; i; c] ->
+      let alg x = { ap_wildcard = false; ap_alg = ni x } in
+      (match ser_opensessionreq { oq_tag = ni tag; oq_maxpriv = ni priv; oq_id = nbig id; oq_auth = alg a; oq_integ = alg i; oq_conf = alg c } [] with
+       | Ok b -> "ok " ^ hex_of_bytes b | Err -> "err" | Fault -> "fault")
+  | ["serrakp1"; tag; bmcid; rnd; lookup; priv; user] ->
+      (match ser_rakp1 { r1_tag = ni tag; r1_bmc_id = nbig bmcid; r1_random = bytes_of_hex rnd; r1_lookup = (lookup = "1");
+                         r1_maxpriv = ni priv; r1_username = bytes_of_hex user } [] with
+       | Ok b -> "ok " ^ hex_of_bytes b | Err -> "err" | Fault -> "fault")
+  | ["serrakp3"; tag; st; bmcid; code] ->
+      (match ser_rakp3 { r3_tag = ni tag; r3_status = ni st; r3_bmc_id = nbig bmcid; r3_authcode = bytes_of_hex code } [] with
+       | Ok b -> "ok " ^ hex_of_bytes b | Err -> "err" | Fault -> "fault")
+  | ["specopen"; h] ->
+      (match SpecParse.open_session_request (bytes_of_hex h) with
+       | Some q -> Printf.sprintf "ok %d %d %d %d %d %d" (int_of_n q.oq_tag) (int_of_n q.oq_maxpriv) (int_of_n q.oq_id)
+                     (int_of_n q.oq_auth.ap_alg) (int_of_n q.oq_integ.ap_alg) (int_of_n q.oq_conf.ap_alg)
+       | None -> "reject")
+  | ["specrakp1"; h] ->
+      (match SpecParse.rakp_message_1 (bytes_of_hex h) with
+       | Some m -> Printf.sprintf "ok %d %d %s %s %d %s" (int_of_n m.r1_tag) (int_of_n m.r1_bmc_id) (hex_of_bytes m.r1_random)
+                     (if m.r1_lookup then "1" else "0") (int_of_n m.r1_maxpriv) (hex_of_bytes m.r1_username)
+       | None -> "reject")
+  | ["specrakp3"; h] ->
+      (match SpecParse.rakp_message_3 (bytes_of_hex h) with
+       | Some m -> Printf.sprintf "ok %d %d %d %s" (int_of_n m.r3_tag) (int_of_n m.r3_status) (int_of_n m.r3_bmc_id) (hex_of_bytes m.r3_authcode)
+       | None -> "reject")
   | ["serreq"; req] ->
       (match ser_request (request_of req) [] with Ok b -> "ok " ^ hex_of_bytes b | Err -> "err" | Fault -> "fault")
   | ["bmc_rakp"; auth; integ; conf; pw; kg; guid; console; bmcid; rm; rc; role; name] ->
@@ -223,6 +248,25 @@ let handle (w : string list) : string =
                | Some RdScanningDisabled -> "scanningdisabled"
                | None -> "noreader"))
        | _, _ -> "decodeerr")
+  | ["rt"; layer; h] ->
+      let show r = match r with
+        | None -> "err"
+        | Some (Ok ((out, first), second)) ->
+            Printf.sprintf "ok %s ok %s || %s" (hex_of_bytes out) (String.concat " " (List.map tok_str first))
+              (match second with Some ts -> "ok " ^ String.concat " " (List.map tok_str ts) | None -> "err")
+        | Some Err -> "sererr" | Some Fault -> "fault" in
+      (match String.split_on_char ':' layer with
+       | ["message"] -> show (rt_message (bytes_of_hex h))
+       | ["v1session"] -> show (rt_v1session (bytes_of_hex h))
+       | ["rakp1"] -> show (rt_rakp1 (bytes_of_hex h))
+       | ["v2session"; alg; key] ->
+           (match integrity_sign (ni alg) (bytes_of_hex key) with
+            | Some sg -> show (rt_v2session sg (bytes_of_hex h)) | None -> failwith "alg")
+       | _ -> failwith "oracle: rt: unknown layer")
+  | ["rtaes"; key; iv; h] ->
+      (match rt_aes (bytes_of_hex key) (bytes_of_hex iv) (bytes_of_hex h) with
+       | None -> "err" | Some (Ok (out, p)) -> Printf.sprintf "ok %s %s" (hex_of_bytes out) (hex_of_bytes p)
+       | Some Err -> "sererr" | Some Fault -> "fault")
   | ["c07"; layer; shape; h] -> c07 layer (int_of_string shape) (bytes_of_hex h)
   | ["cbcenc"; key; iv; pt] ->
       hex_of_bytes (cbc_encrypt (aes_enc (bytes_of_hex key)) (bytes_of_hex iv) (bytes_of_hex pt))
